@@ -56,6 +56,22 @@ def Step.apply : Step → List Char → List Char
 
 def applySteps (steps : List Step) (s : List Char) : List Char := steps.foldl (fun acc st => st.apply acc) s
 
+/-- the tag-level structure of `writer/driver.rs` as read off the source by `tools/extract_tables.py`: which
+    quick-xml event each helper hands to `Writer::write_event`, how attribute values and text reach it, and the
+    raw writes -/
+structure DriverShape where
+  startTagWhenEmpty : String      -- `Event::<X>(elem)` in the `if empty_flag` branch of `write_start_tag`
+  startTagOtherwise : String      -- … in the `else` branch
+  attrValueIsEscaped : Bool       -- `push_attribute((key.as_bytes(), value.as_bytes()))` with `value` = the escape chain
+  endTag : String                 -- `Event::<X>(BytesEnd::new(tag_name.into()))` in `write_end_tag`
+  textNodeEvent : String          -- `Event::<X>(BytesText::<ctor>(escaped))` in `write_text_node`
+  textNodeCtor : String
+  conversionVia : String          -- the function `write_text_node_conversion` hands its escaped text to
+  noEscapeIsRawWrite : Bool       -- `write_text_node_no_escape` is `writer.get_mut().write(data.into().as_bytes())`
+  newLineVia : String             -- the function `write_new_line` calls
+  newLineLiteral : String         -- … with this literal
+  deriving Repr, DecidableEq
+
 /-- a writer helper: the quick-xml function given for its base, then the replace chain -/
 def Pipeline.run (esc pesc : List Char → List Char) (p : Pipeline) (s : List Char) : List Char :=
   applySteps p.steps (match p.base with | .escape => esc s | .partialEscape => pesc s)
